@@ -17,8 +17,8 @@
        entries (and UCB1's total_count, written before the tasks start) and writes only the arm's own entries, so two tasks for
        different arms COMMUTE and the fitted state is the same for EVERY completion order of the tasks - for the six context-free
        policies (fit_independent_of_task_order) and for TreeBandit's per-arm leaf tables (tree_fit_independent_of_task_order).
-       Tasks are atomic in the model (joblib runs a task to completion in one worker); the linear policies' tasks are checked by
-       permuting them on the implementation.
+       Tasks are atomic in the model (joblib runs a task to completion in one worker).  Linear policies: two tasks for different arms
+       commute, including the case in which one of them raises (lin_fit_tasks_commute).
     ..._partial: what the model cannot exhibit is named in DESIGN.md: OS scheduling inside joblib, process
     boundaries, pre-emption inside a task. TreeBandit (finding D7) and LinTS under a neighbourhood (finding D8) are refuted on the code. *)
 From Coq Require Import List ZArith Bool Arith QArith Qcanon Permutation.
@@ -166,6 +166,18 @@ Theorem C05_tree_fit_independent_of_task_completion_order :
     lv.
 Proof. exact @tree_fit_independent_of_task_order. Qed.
 Print Assumptions C05_tree_fit_independent_of_task_completion_order.
+
+Theorem C05_linear_fit_tasks_commute :
+  forall (R A : Type) (N : Num R) (aeqb : A -> A -> bool),
+  (forall x y : A, aeqb x y = true <-> x = y) ->
+  forall (G : Type) (s : (@lin R A G)) (g : G) (a b : A) (ds : list A) (rs : list R) (cx : (@mat R)),
+  a <> b ->
+  In a (akeys (l_models s)) ->
+  In b (akeys (l_models s)) ->
+  obind (fun s1 : (@lin R A G) => lin_fit_arm N aeqb s1 g b ds rs cx) (lin_fit_arm N aeqb s g a ds rs cx) =
+  obind (fun s1 : (@lin R A G) => lin_fit_arm N aeqb s1 g a ds rs cx) (lin_fit_arm N aeqb s g b ds rs cx).
+Proof. exact @lin_fit_tasks_commute. Qed.
+Print Assumptions C05_linear_fit_tasks_commute.
 
 Example C05_partition_example : partition_sizes 7 3 = [3; 2; 2]%nat /\ starts (partition_sizes 7 3) = [0; 3; 5; 7]%nat.
 Proof. split; reflexivity. Qed.
